@@ -223,7 +223,7 @@ CHECKS = {
               "regenerated keyword table. Tie: keyword table/token enumeration regenerated from token_types.go on every run; model "
               "executed against scanner.Scan/ScanAlias exhaustively over all concatenations of <=3 (quick) / <=4 (thorough) pieces of a "
               "26-piece lexical-class alphabet plus random lines and all repository .ddp files; independent property monitor on the "
-              "implementation's token list. Not proved: indentation theorem (correspondence only); string/char/comment token languages "
+              "implementation's token list. Indentation depth: t tabs at the start of a line add t, 4k+r spaces (r<4) add k (indent_tabs, indent_spaces, by induction for all t, k). Not proved: string/char/comment token languages "
               "are covered by partition+positions but their inner shape is not restated as a grammar."),
         note=TB + "Go's utf8.Valid/DecodeRune and strings.ToLower trusted; the model starts from decoded code points.",
         technique="Lean 4 proof over transcribed scanner model + regenerated keyword table + exhaustive differential correspondence",
